@@ -31,6 +31,10 @@ type certOpts struct {
 	// the certificate is issued a second time by the same issuer with its complete extension list given
 	// explicitly, same values, same order, and the flags drawn by the harness instead of the issuer's habits.
 	Recrit map[string]bool
+	// RawSubject, when not nil, is the DER of the subject name (both issuers copy it into the certificate as
+	// it is): the class "names and authority key ids of the pre-issuer" gives a pre-issuer the very octets of
+	// its issuer's name, or the same name in another string type.
+	RawSubject []byte
 }
 
 var stdSerial int64 = 500000
@@ -53,6 +57,9 @@ func issue(std bool, o certOpts, parent *pki.Entity) *pki.Entity {
 			}
 			if o.NoKeyUsage {
 				t.KeyUsage = 0
+			}
+			if o.RawSubject != nil {
+				t.RawSubject = o.RawSubject
 			}
 		}
 		return pki.Issue(p, parent)
@@ -78,6 +85,9 @@ func issue(std bool, o certOpts, parent *pki.Entity) *pki.Entity {
 	}
 	if !o.NoBC {
 		t.BasicConstraintsValid, t.IsCA = true, o.IsCA
+	}
+	if o.RawSubject != nil {
+		t.RawSubject = o.RawSubject
 	}
 	switch {
 	case o.NoKeyUsage:
